@@ -25,13 +25,18 @@ class World(object):
         from glue.core import Data, Hub, HubListener
         from glue.core.message import Message
         self.violations = []
-        self.d = Data(label='d', x=[1., 2., 3.], y=[2., 3., 5.])
-        self.cids = {'x': self.d.id['x'], 'y': self.d.id['y'], 'p0': self.d.pixel_component_ids[0]}
+        shape = tuple(scn.shape)
+        n = int(np.prod(shape))
+        self.d = Data(label='d', x=np.arange(1., n + 1).reshape(shape), y=(np.arange(n) * 1.5 + 2).reshape(shape))
+        self.cids = {'x': self.d.id['x'], 'y': self.d.id['y']}
         # model: ordered list of component records
-        self.m = [dict(key='p0', label=self.cids['p0'].label, kind='pixel', deps=[]),
-                  dict(key='x', label='x', kind='main', deps=[]),
-                  dict(key='y', label='y', kind='main', deps=[])]
-        self.m_shape = (3,)
+        self.m = []
+        for i, pc in enumerate(self.d.pixel_component_ids):
+            self.cids['p%d' % i] = pc
+            self.m.append(dict(key='p%d' % i, label=pc.label, kind='pixel', deps=[]))
+        self.m += [dict(key='x', label='x', kind='main', deps=[]),
+                   dict(key='y', label='y', kind='main', deps=[])]
+        self.m_shape = shape
         self.m_coords = 'none'
         self.m_label = 'd'
         self.log = []
@@ -95,7 +100,8 @@ class World(object):
 class Scenario(object):
 
     def __init__(self, hub=True, refresh=('same', 'newshape', 'newcomps', 'newdim'), coords=True,
-                 dup_label=True):
+                 dup_label=True, shape=(3,)):
+        self.shape = shape
         self.hub = hub
         self.refresh = refresh
         self.coords = coords
@@ -299,11 +305,14 @@ class Scenario(object):
         if which == 'same':
             o = Data(label=w.m_label, **{r['label']: np.zeros(w.m_shape) + 4 for r in w.m if r['kind'] == 'main'})
         elif which == 'newshape':
-            o = Data(label=w.m_label, **{r['label']: np.arange(4.) for r in w.m if r['kind'] == 'main'})
+            bigger = tuple(s + 1 if i == len(w.m_shape) - 1 else s for i, s in enumerate(w.m_shape))
+            o = Data(label=w.m_label, **{r['label']: np.arange(float(np.prod(bigger))).reshape(bigger)
+                                         for r in w.m if r['kind'] == 'main'})
         elif which == 'newcomps':
             o = Data(label='other', y=np.zeros(w.m_shape) + 1, q=np.zeros(w.m_shape) + 2)
         elif which == 'newdim':
-            o = Data(label=w.m_label, **{r['label']: np.zeros((2, 2)) for r in w.m if r['kind'] == 'main'})
+            other = (2, 2) if len(w.m_shape) == 1 else (3,)
+            o = Data(label=w.m_label, **{r['label']: np.zeros(other) for r in w.m if r['kind'] == 'main'})
         else:
             raise core.EngineError(which)
         labels = [r['label'] for r in w.m]
@@ -432,9 +441,13 @@ class Scenario(object):
 def tiers(tier):
     if tier == 'quick':
         return [('hub', Scenario(hub=True), 3), ('nohub', Scenario(hub=False, dup_label=False), 3),
-                ('hub-norefresh', Scenario(hub=True, refresh=(), dup_label=False), 4)]
+                ('hub-norefresh', Scenario(hub=True, refresh=(), dup_label=False), 4),
+                ('hub-2d', Scenario(hub=True, dup_label=False, shape=(2, 2)), 3),
+                ('hub-3d-coords', Scenario(hub=True, dup_label=False, refresh=('same',), shape=(2, 1, 2)), 3)]
     return [('hub', Scenario(hub=True), 4), ('nohub', Scenario(hub=False), 4),
-            ('hub-norefresh', Scenario(hub=True, refresh=()), 5)]
+            ('hub-norefresh', Scenario(hub=True, refresh=()), 5),
+            ('hub-2d', Scenario(hub=True, shape=(2, 2)), 4), ('nohub-2d', Scenario(hub=False, shape=(2, 2)), 4),
+            ('hub-3d-coords', Scenario(hub=True, dup_label=False, refresh=('same', 'newcomps'), shape=(2, 1, 2)), 4)]
 
 
 def run(tier):
